@@ -11,6 +11,7 @@ import (
 	"github.com/krotik/ecal/parser"
 	"github.com/krotik/ecal/scope"
 	"github.com/krotik/ecal/stdlib"
+	"github.com/krotik/ecal/util"
 )
 
 // ---------------------------------------------------------------------------
@@ -436,5 +437,78 @@ func init() {
 				}
 			}
 			c.Sample(`for n in ["floor", "ceil"] { r := add(r, math[n](2.5)) }  ->  [2 3]`)
+		}})
+}
+
+// ---------------------------------------------------------------------------
+// a result handed to ECAL belongs to ECAL: later calls of bridged functions
+// (the same or others) must not change a list that an earlier call returned.
+
+func init() {
+	register(&Part{Prop: "C19", Name: "results-are-not-shared", Quick: 1, Thor: 1,
+		Desc: "every multi-result function (synthetic two / three results, math.frexp, math.modf, math.sincos, math.lgamma) called, its result list kept, then every synthetic and every math function called once (and the first function again with another argument): the kept list must still hold its values; also from ECAL source",
+		Rule: "multi-result functions x follow-up functions; every case non-trivial",
+		Run: func(c *Ctx) {
+			type fn struct {
+				name string
+				ad   util.ECALFunction
+			}
+			var multi, all []fn
+			for _, f := range c19Fns {
+				ad := stdlib.NewECALFunctionAdapter(reflect.ValueOf(f.f), "doc")
+				all = append(all, fn{f.name, ad})
+				if f.name == "twoResults" || f.name == "threeErrNil" {
+					multi = append(multi, fn{f.name, ad})
+				}
+			}
+			for _, n := range []string{"frexp", "modf", "sincos", "lgamma", "sqrt", "floor", "pow"} {
+				if f, ok := stdlib.GetStdlibFunc("math." + n); ok {
+					all = append(all, fn{"math." + n, f})
+					if n == "frexp" || n == "modf" || n == "sincos" || n == "lgamma" {
+						multi = append(multi, fn{"math." + n, f})
+					}
+				}
+			}
+			for _, m := range multi {
+				for _, f := range all {
+					if !c.Mine() {
+						continue
+					}
+					input := m.name + " then " + f.name
+					c.Begin(input)
+					var first interface{}
+					var err error
+					if pk, pm := Guard(func() { first, err = m.ad.Run("", nil, nil, 1, []interface{}{float64(8)}) }); pk != "" || err != nil {
+						c.Viol("multi-result call fails", fmt.Sprintf("%s: %v %v %v", input, pk, pm, err), input)
+						continue
+					}
+					before := render(first)
+					Guard(func() {
+						f.ad.Run("", nil, nil, 1, []interface{}{float64(3.25)})
+						f.ad.Run("", nil, nil, 1, []interface{}{float64(3.25), float64(2)})
+						m.ad.Run("", nil, nil, 1, []interface{}{float64(0.5)})
+					})
+					c.Nontrivial()
+					if after := render(first); after != before {
+						c.Viol("a returned result list is changed by a later bridged call", fmt.Sprintf("%s(8) returned %s; after calling %s and %s again the same list reads %s", m.name, before, f.name, m.name, after), input)
+						continue
+					}
+					c.Outcome("result-kept")
+				}
+			}
+			// the same from ECAL
+			src := "a := math.frexp(8)\nb := math.sqrt(9)\nc := math.modf(3.25)\nd := math.frexp(0.5)\nres := [a, b, c, d]"
+			if c.Mine() {
+				c.Begin(src)
+				out := evalECAL(src, evalOpts{budget: 5000})
+				v, _, _ := out.vs.GetValue("res")
+				c.Nontrivial()
+				if got := render(v); out.err != nil || got != "[[0.5,4],3,[3,0.25],[0.5,0]]" {
+					c.Viol("a returned result list is changed by a later bridged call", fmt.Sprintf("%s gives %s / %v, expected [[0.5,4],3,[3,0.25],[0.5,0]]", src, got, out.err), src)
+				} else {
+					c.Outcome("result-kept")
+				}
+			}
+			c.Sample("a := math.frexp(8); b := math.sqrt(9); a is still [0.5, 4]")
 		}})
 }
